@@ -88,6 +88,11 @@ def build_cases(spec):
             else:
                 files, main = {"main": layouts.canonical(lines)}, "main"
             out.append(("generated", files, main, None))
+        if spec["chunk"] < 2:
+            # a line with 300 breakpoint sites, 260 labelled lines, a call chain 130 deep, 260 included files
+            for files, main, kind in programs.scale_sources(r, small=True):
+                if any(w in kind for w in ("one-line", "labels", "call-chain", "included-files", "loop-nesting")):
+                    out.append(("generated", files, main, None))
     return out
 
 
